@@ -283,6 +283,12 @@ class Channel:
             loop.call_at(t, arrive)
         return await asyncio.shield(fut)
 
+    async def _drain(self) -> None:
+        """A settlement has no reply; the call returns when the client's write has drained.  Nothing orders that against what the
+        server sends meanwhile: in the slow mode a redelivery caused by the settlement reaches the consumer callback first."""
+        for _ in range(4 if self.s.slow_confirm else 1):
+            await asyncio.sleep(0)
+
     async def _reply(self) -> None:
         await asyncio.sleep(self.conn.lat())
         if self.conn.dead or self.is_closed:
@@ -319,7 +325,7 @@ class Channel:
 
         await self._send(effect)
         self.ncalls += 1
-        await asyncio.sleep(0)  # (the write drains)
+        await self._drain()
 
     async def basic_nack(self, delivery_tag: int, multiple: bool = False, requeue: bool = True, wait: bool = True) -> None:
         def effect() -> None:
@@ -328,12 +334,12 @@ class Channel:
 
         await self._send(effect)
         self.ncalls += 1
-        await asyncio.sleep(0)
+        await self._drain()
 
     async def basic_reject(self, delivery_tag: int, *, requeue: bool = True, wait: bool = True) -> None:
         await self._send(lambda: self._settle(delivery_tag) and self._back(delivery_tag, requeue))
         self.ncalls += 1
-        await asyncio.sleep(0)
+        await self._drain()
 
     async def basic_qos(self, *, prefetch_size: int | None = None, prefetch_count: int | None = None,
                         global_: bool = False, timeout: Any = None) -> Any:
